@@ -7,6 +7,10 @@ from typing import Any, Iterator, Optional, Tuple, Union
 
 PatchToken = Tuple[types.ModuleType, str, Any]
 
+# Marks a member that did not exist before it was patched. None cannot be used
+# for this, since None is a legitimate previous value (e.g. sys.stdin).
+_MISSING = object()
+
 
 def begin_patch(
     module: Union[str, types.ModuleType], member: str, new_value: Any
@@ -17,10 +21,7 @@ def begin_patch(
 
         module = sys.modules[module]
 
-    if not hasattr(module, member):
-        old_member = None
-    else:
-        old_member = getattr(module, member)
+    old_member = getattr(module, member, _MISSING)
     setattr(module, member, new_value)
     return module, member, old_member
 
@@ -30,7 +31,7 @@ def end_patch(token: Optional[PatchToken]) -> None:
         return
 
     module, member, old_member = token
-    if old_member is None:
+    if old_member is _MISSING:
         delattr(module, member)
     else:
         setattr(module, member, old_member)
